@@ -471,6 +471,28 @@ func (r *runner) malleate(oc *origCtx, res *jobResult) {
 			}
 		}
 	}
+	// forbidden length headers, one item at a time (headers.go): every one must be rejected
+	for _, hv := range HeaderVariants(x) {
+		if seen[string(hv.Bytes)] || bytes.Equal(hv.Bytes, x) {
+			continue
+		}
+		seen[string(hv.Bytes)] = true
+		edit := fmt.Sprintf("hdr-%s-len%d", hv.Name, hv.Len)
+		if hv.Len != 55 && hv.Len != 56 && hv.Len > 1 {
+			edit = "hdr-" + hv.Name
+		}
+		o, nv := r.try(oc, res, hv.Bytes, edit, 0)
+		res.malTried++
+		if o.Accepted {
+			res.malAcc++
+			if nv == 0 {
+				res.addFinding(&Finding{Kind: oc.o.Kind, Rule: "noncanonical-header-accepted", Edit: edit, Region: "header", Name: oc.o.Name, Original: hx(x), Mutated: hx(hv.Bytes),
+					Detail: fmt.Sprintf("%s: the same content with a %s header (payload of %d bytes) is accepted", oc.o.Name, hv.Name, hv.Len)})
+			}
+		} else {
+			res.malRej++
+		}
+	}
 	for i := range oc.l.Sigs {
 		v, rr, s := oc.l.VRS(x, i)
 		for _, m := range menuFor(v, rr, s) {
